@@ -30,6 +30,9 @@ RULE = (
 ASSUMPTIONS = [
     "block tags with unbalanced quotes (per the patched lexer) are outside the statement and not generated",
     "(b) equivalence is by construction under Django's documented extends/block/include semantics",
+    "(b) families in which a {% block %} is rendered inside its own rendering (fill content that re-enters itself through {{ default }} "
+    "or a same-named nested slot) are outside Django's block semantics (the block being rendered is popped from the block state); a "
+    "monitor on BlockNode.render detects them at run time and they are counted, not compared",
 ]
 
 KNOWN_BLOCK_CTX = "C10-block-context-shared-between-nested-extends-components"
@@ -226,38 +229,11 @@ class Splitter:
             return self.ser(nodes)
         levels = levels if levels is not None else rng.choice([1, 1, 2])
         base_name = self.name("base")
-        base, child = [], []
+        child = []
         self.fam += 1
-        # block names: a small shared pool (as in real projects: "content", "title") or unique per family
-        bname = (lambda j: f"u{self.fam}_{j}") if self.unique_blocks else (lambda j: f"b{j}")
-        junk = lambda: "[junk" + str(rng.randrange(1000)) + "]"  # noqa: E731
-        i = 0
-        bi = 0
-        while i < len(nodes):
-            n = nodes[i]
-            r = rng.random()
-            if r < 0.3:
-                base.append(self.ser([n]))
-            elif r < 0.45:
-                bi += 1
-                base.append("{% block " + bname(bi) + " %}" + self.ser([n]) + "{% endblock %}")
-            elif r < 0.7:
-                bi += 1
-                self.feats.add("block-override")
-                base.append("{% block " + bname(bi) + " %}" + junk() + "{% endblock %}")
-                child.append("{% block " + bname(bi) + " %}" + self.ser([n]) + "{% endblock %}")
-            elif r < 0.85 and i + 1 < len(nodes):
-                bi += 1
-                self.feats.add("block.super")
-                base.append("{% block " + bname(bi) + " %}" + self.ser([n]) + "{% endblock %}")
-                child.append("{% block " + bname(bi) + " %}{{ block.super }}" + self.ser([nodes[i + 1]]) + "{% endblock %}")
-                i += 1
-            else:
-                self.feats.add("include")
-                inc = self.name("inc")
-                self.templates[inc] = self.ser([n])
-                base.append('{% include "' + inc + '" %}')
-            i += 1
+        self.bi = 0
+        self.deep_p = rng.choice([0.0, 0.15, 0.35])
+        base = self.pieces(nodes, child, top=True)
         self.templates[base_name] = "".join(base)
         self.feats.add("extends")
         src = '{% extends "' + base_name + '" %}' + "".join(child)
@@ -267,6 +243,96 @@ class Splitter:
             self.feats.add("grandchild")
             src = '{% extends "' + mid + '" %}'
         return src
+
+    def bname(self):
+        # block names: a small shared pool (as in real projects: "content", "title") or unique per family
+        self.bi += 1
+        return f"u{self.fam}_{self.bi}" if self.unique_blocks else f"b{self.bi}"
+
+    def pieces(self, nodes, child, top, in_fill=False):
+        """Source pieces for the BASE template equivalent to ``nodes`` once ``child`` (list of block overrides
+        for the extending template) is applied.  At the top level every node is placed; inside nested bodies
+        (fill bodies, slot defaults, loop / if / with / provide / element bodies) a node is rewritten with
+        probability deep_p and otherwise recursed into."""
+        rng = self.rng
+        junk = lambda: "[junk" + str(rng.randrange(1000)) + "]"  # noqa: E731
+        out = []
+        i = 0
+        while i < len(nodes):
+            n = nodes[i]
+            if not top and rng.random() >= (max(self.deep_p, 0.5) if in_fill else self.deep_p):
+                out.append(self.ser([self.deep(n, child)]))
+                i += 1
+                continue
+            if not top:
+                self.feats.add("nested-rewrite")
+            r = rng.random()
+            if top and n[0] == "slot" and rng.random() < 0.3:
+                r = 0.99  # slots moved into an {% include %}
+            if r < 0.3:
+                out.append(self.ser([self.deep(n, child)]))
+            elif r < 0.45:
+                out.append("{% block " + self.bname() + " %}" + self.ser([self.deep(n, child)]) + "{% endblock %}")
+            elif r < 0.7:
+                self.feats.add("block-override" if top else "nested-block-override")
+                b = self.bname()
+                out.append("{% block " + b + " %}" + junk() + "{% endblock %}")
+                child.append("{% block " + b + " %}" + self.ser([n]) + "{% endblock %}")
+            elif r < 0.85 and i + 1 < len(nodes):
+                self.feats.add("block.super" if top else "nested-block.super")
+                b = self.bname()
+                out.append("{% block " + b + " %}" + self.ser([n]) + "{% endblock %}")
+                child.append("{% block " + b + " %}{{ block.super }}" + self.ser([nodes[i + 1]]) + "{% endblock %}")
+                i += 1
+            else:
+                self.feats.add("include" if top else "nested-include")
+                inc = self.name("inc")
+                self.templates[inc] = self.ser([n])
+                out.append('{% include "' + inc + '" %}')
+            i += 1
+        return out
+
+    def deep(self, n, child):
+        """Copy of node ``n`` whose nested bodies are replaced by pre-serialised source with blocks / includes."""
+        if not self.deep_p:
+            return n
+        k = n[0]
+        n = list(n)
+
+        def B(body, in_fill=False):
+            return [("raw", "".join(self.pieces(body, child, top=False, in_fill=in_fill)))] if body else body
+
+        def S(sites):
+            out = []
+            for s in sites:
+                s = list(s)
+                if s[0] == "fill":
+                    s[2] = B(s[2], in_fill=True)
+                elif s[0] == "if":
+                    s[2] = S(s[2])
+                    s[3] = S(s[3]) if s[3] else s[3]
+                elif s[0] == "for":
+                    s[-1] = S(s[-1])
+                elif s[0] == "with":
+                    s[3] = S(s[3])
+                out.append(s)
+            return out
+
+        if k == "elem":
+            n[2] = B(n[2])
+        elif k == "if":
+            n[2] = B(n[2])
+            n[3] = B(n[3]) if n[3] else n[3]
+        elif k == "for":
+            n[-1] = B(n[-1])
+        elif k in ("with", "provide"):
+            n[3] = B(n[3])
+        elif k == "slot":
+            n[3] = B(n[3]) if n[3] else n[3]
+        elif k == "comp" and n[3] is not None:
+            body = n[3]
+            n[3] = ["implicit", B(body[1], in_fill=True)] if body[0] == "implicit" else [body[0], S(body[1])]
+        return n
 
 
 def shard_compose(spec, rec):
@@ -328,12 +394,57 @@ def renamed_agrees(env, prog, mode, case):
     try:
         ref = e1run.reference(prog, mode)
         limit = 20 * len(ref[2].instances) + 50
-        return env.render(flat, mode, limit=limit)[:2] == env.render(fam, mode, limit=limit)[:2]
+        a = env.render(flat, mode, limit=limit)[:2]
+        with BlockReentry() as mon:
+            b = env.render(fam, mode, limit=limit)[:2]
+        if mon.reentered:
+            return "reentered"
+        return a == b
     finally:
         flat.dispose()
         fam.dispose()
         for n in names:
             boot.LOCMEM.pop(n, None)
+
+
+class BlockReentry:
+    """Monitor on django.template.loader_tags.BlockNode.render: was a block node rendered while a render of the same
+    node in the same template instance (same component instance / the page) was still in progress?  Django pops the block being rendered from the block
+    state for the duration of its render ({{ block.super }} relies on it), so a re-entered block necessarily resolves
+    to its parent version: stock templates cannot re-enter a block, and "composition = inlining" is not defined for a
+    family whose fill content (holding the block) is rendered inside its own rendering."""
+
+    def __init__(self):
+        from django.template.loader_tags import BLOCK_CONTEXT_KEY, BlockNode
+
+        self.BlockNode, self.key = BlockNode, BLOCK_CONTEXT_KEY
+        self.active = {}
+        self.reentered = 0
+        self.renders = 0
+
+    def __enter__(self):
+        mon = self
+        orig = self.orig = self.BlockNode.render
+
+        def render(node, context):
+            bc = context.render_context.get(mon.key)
+            # the same block node, on behalf of the same component instance (or the page): a nested *instance* of an
+            # extends-based component re-using its cached template is a separate template render and is NOT excluded
+            k = (id(node), context.get("_DJC_COMPONENT_CTX"))
+            mon.renders += 1
+            if bc is not None and mon.active.get(k):
+                mon.reentered += 1
+            mon.active[k] = mon.active.get(k, 0) + 1
+            try:
+                return orig(node, context)
+            finally:
+                mon.active[k] -= 1
+
+        self.BlockNode.render = render
+        return self
+
+    def __exit__(self, *a):
+        self.BlockNode.render = self.orig
 
 
 def run_compose_case(env, rec, case):
@@ -349,9 +460,15 @@ def run_compose_case(env, rec, case):
             ref = e1run.reference(prog, mode)
             limit = 20 * len(ref[2].instances) + 50
             a = env.render(flat, mode, limit=limit)
-            b = env.render(fam, mode, limit=limit)
+            with BlockReentry() as mon:
+                b = env.render(fam, mode, limit=limit)
             rec.observe("family-vs-flattened-comparisons")
+            rec.count("block_renders_observed", mon.renders)
             results[mode] = (a, b)
+            if mon.reentered:
+                # outside the statement (see BlockReentry); counted, not compared
+                rec.count("excluded:block-rendered-inside-its-own-render")
+                results[mode] = (a, a)
             if a[0] == "ok" and ref[0] == "ok" and a[1] != ref[1]:
                 rec.violation("flattened-differs-from-reference", dict(case, mode=mode), {"what": f"{a[1]!r} vs {ref[1]!r}"})
                 return nsplit
@@ -372,7 +489,12 @@ def run_compose_case(env, rec, case):
                 if self_nested:
                     known = KNOWN_BLOCK_CTX
             elif nested_extends(prog, mode, split_classes, False):
-                if renamed_agrees(env, prog, mode, case) or self_nested:
+                ra = renamed_agrees(env, prog, mode, case)
+                if ra == "reentered":
+                    # the family re-enters a block once the name collision is out of the way: outside the statement
+                    rec.count("excluded:block-rendered-inside-its-own-render")
+                    return nsplit
+                if ra or self_nested:
                     known = KNOWN_BLOCK_CTX
             rec.report("family-differs-from-flattened", dict(case, mode=mode), detail, known=known)
             return nsplit
@@ -387,7 +509,7 @@ def run_compose_case(env, rec, case):
 # =======================================================================================
 def plan(tier, seed):
     na = 2000 if tier == "quick" else 100000
-    nb = 2000 if tier == "quick" else 60000
+    nb = 4000 if tier == "quick" else 60000
     ns = 8 if tier == "quick" else 16
     shards = [{"name": f"stock_{i:02d}", "kind": "stock", "n": na // ns, "idx": i} for i in range(ns)]
     shards += [{"name": f"compose_{i:02d}", "kind": "compose", "n": nb // ns, "idx": i} for i in range(ns)]
